@@ -89,8 +89,14 @@ func (in *Interp) intrinsic(fn *ssa.Function, args []Val) (Val, bool) {
 			in.memFault(err)
 		}
 		if done.x == nil && done.c == 0 {
+			if in.ex != nil {
+				in.ex.inOnce++
+			}
 			in.store(p.obj, p.off, types.Typ[types.Uint32], Val{c: 1})
 			in.callValue(args[1], nil, nil)
+			if in.ex != nil {
+				in.ex.inOnce--
+			}
 		}
 		return Val{}, true
 	case "(*sync.Mutex).Lock", "(*sync.Mutex).Unlock", "(*sync.RWMutex).Lock", "(*sync.RWMutex).Unlock", "(*sync.RWMutex).RLock", "(*sync.RWMutex).RUnlock":
@@ -299,6 +305,39 @@ func (in *Interp) verifrt(name string, fn *ssa.Function, args []Val) (Val, bool)
 		return Val{}, true
 	case "ObserveBytes":
 		pc.obs = append(pc.obs, obsRec{label: in.strArg(args[0]), vals: in.bytesOf(args[1]), w: 8})
+		return Val{}, true
+	case "Parallel":
+		// sequential execution with per-phase read/write footprints
+		for ph := 1; ph <= 2; ph++ {
+			pc.fpR[ph] = map[*Object]string{}
+			pc.fpW[ph] = map[*Object]string{}
+		}
+		pc.phase = 1
+		in.callValue(args[0], nil, nil)
+		pc.phase = 2
+		in.callValue(args[1], nil, nil)
+		pc.phase = 0
+		report := func(o *Object, who string) {
+			pc.events = append(pc.events, Event{Kind: "assert", Label: "C17:shared-memory-conflict", Origin: who, Msg: "object " + o.name})
+		}
+		n := 0
+		for o, who := range pc.fpW[1] {
+			_, r := pc.fpR[2][o]
+			_, w := pc.fpW[2][o]
+			if (r || w) && n < 5 {
+				report(o, who)
+				n++
+			}
+		}
+		for o, who := range pc.fpW[2] {
+			if _, r := pc.fpR[1][o]; r && n < 5 {
+				report(o, who)
+				n++
+			}
+		}
+		if n > 0 {
+			in.end("violation", "instances share written memory")
+		}
 		return Val{}, true
 	case "Origin":
 		pc.originTag = in.strArg(args[0])
